@@ -206,9 +206,49 @@ Print Assumptions C16_load_file_side_inhabited.
 
 (** for packages below GOPATH/src the per-import condition of [good_file] follows from the
     intrinsic one ([resolve_side], no "vendor" element, not rewritten by gta) *)
-Theorem C16_good_pkg_ok : forall c k, good_pkg c k = true -> pkg_ok c k = true.
+Theorem C16_good_pkg_ok :
+  forall c k, (forall d, rp_of c (c_gsrc c ++ d) = d) -> good_pkg c k = true -> pkg_ok c k = true.
 Proof. exact good_pkg_ok. Qed.
 Print Assumptions C16_good_pkg_ok.
+
+(** ** The second attempt of importSrc (rootFromSourceLocation), entry file inside GOPATH/src/<proj> *)
+
+(** Y.resolve started at the input file's directory [proj] — which is what the second attempt does
+    for a package in [proj/rel] whose own walk (from a root relative to the input file, not to
+    GOPATH/src) found nothing — is what Go prescribes for the importing directory [proj/rel], for all
+    filesystems, projects, chains [rel] and import paths, as long as [resolve_side] holds at [proj]
+    and no vendor directory strictly between holds the path. *)
+Theorem C16_retry_partial :
+  forall st hasgo gsrc proj rel ip,
+    fs_closed st -> fs_hasgo_dir st hasgo -> resolve_side st hasgo gsrc proj ip = true ->
+    (forall e1 e2, rel = e1 ++ e2 -> e1 <> [] -> hasgo (gsrc ++ (proj ++ e1) ++ vendor :: ip) = false) ->
+    y_resolve st gsrc proj ip = g_resolve st hasgo gsrc (proj ++ rel) ip.
+Proof. exact retry_resolve. Qed.
+Print Assumptions C16_retry_partial.
+
+(** with the retry root "" (input "_.go", input file outside GOPATH) the second attempt changes nothing *)
+Theorem C16_retry_noop :
+  forall st gsrc ip fuel root,
+    y_pkg_dir st gsrc fuel root ip = NotFound -> y_pkg_dir st gsrc 1 [] ip = NotFound.
+Proof. exact retry_nil_noop. Qed.
+Print Assumptions C16_retry_noop.
+
+(** non-vacuity of C16_load_file_partial for this layout: ./local -> ./sub -> "dep/a" found only in
+    the project's vendor directory, by the second attempt; without it the load fails *)
+Theorem C16_retry_inhabited :
+  c_retry c_proj = pth "org/proj"
+  /\ good_file c_proj = true
+  /\ snd (y_run_file c_proj) = None
+  /\ In (EvEdge (pth "gp/src/org/proj/local/sub") (pth "dep/a") (pth "gp/src/org/proj/vendor/dep/a")) (fst (y_run_file c_proj))
+  /\ y_run_file c_proj = g_run_file c_proj.
+Proof. exact retry_inhabited. Qed.
+Print Assumptions C16_retry_inhabited.
+
+Theorem C16_retry_needed :
+  snd (y_run_file {| c_gsrc := c_gsrc c_proj; c_entry := c_entry c_proj; c_retry := []; c_tree := t_proj |})
+  = Some ENotFound.
+Proof. exact retry_needed. Qed.
+Print Assumptions C16_retry_needed.
 
 (** the side conditions are violated by the refutation witnesses below *)
 Theorem C16_load_file_side_excludes_witnesses :
@@ -288,3 +328,21 @@ Theorem C16_relative_root_refuted :
   /\ In (EvEdge (pth "work/x") (pth "q") (pth "gp/src/q")) (fst (g_run_file (mkctx "gp/src" "work" t_rel_root))).
 Proof. exact relative_root_refuted. Qed.
 Print Assumptions C16_relative_root_refuted.
+
+Theorem C16_source_location_retry_refuted :
+  snd (y_run_file (mkctx "gp/src" "gp/src/org/proj" t_foreign)) = None
+  /\ In (EvEdge (pth "gp/src/q") (pth "dep/a") (pth "gp/src/org/proj/vendor/dep/a"))
+        (fst (y_run_file (mkctx "gp/src" "gp/src/org/proj" t_foreign)))
+  /\ snd (g_run_file (mkctx "gp/src" "gp/src/org/proj" t_foreign)) = Some ENotFound
+  /\ good_file (mkctx "gp/src" "gp/src/org/proj" t_foreign) = false.
+Proof. exact source_location_retry_refuted. Qed.
+Print Assumptions C16_source_location_retry_refuted.
+
+Theorem C16_proj_both_refuted :
+  In (EvEdge (pth "gp/src/org/proj/local") (pth "dep/a") (pth "gp/src/dep/a"))
+     (fst (y_run_file (mkctx "gp/src" "gp/src/org/proj" t_proj_both)))
+  /\ In (EvEdge (pth "gp/src/org/proj/local") (pth "dep/a") (pth "gp/src/org/proj/vendor/dep/a"))
+        (fst (g_run_file (mkctx "gp/src" "gp/src/org/proj" t_proj_both)))
+  /\ good_file (mkctx "gp/src" "gp/src/org/proj" t_proj_both) = false.
+Proof. exact proj_both_refuted. Qed.
+Print Assumptions C16_proj_both_refuted.
